@@ -78,7 +78,7 @@ CHECKS['C07'] = dict(
 CHECKS['C18'] = dict(
     level='model_checking',
     steps=[dict(mode='asan', bin='c18_features')],
-    rule='fonts: all shipped + synthesised Feat/Sill families whose bit widths hit every residue around a 32-bit word boundary ((1,31,1) (16,16,1) (17,16) (15,15,2) (16,0,16,2), zero-settings features, 33x1, 9x8, 40 mixed, Feat v1, 129/130 zero-settings features, 1- to 4-character ids, ids spread over the whole unsigned 32-bit range in four low/high mixes) + S-full variants. '
+    rule='fonts: all shipped + synthesised Feat/Sill families whose bit widths hit every residue around a 32-bit word boundary ((1,31,1) (16,16,1) (17,16) (15,15,2) (16,0,16,2), zero-settings features, 33x1, 9x8, 40 mixed, Feat v1, 129/130 zero-settings features, language entries naming feature ids the Feat table lacks, 1- to 4-character ids, ids spread over the whole unsigned 32-bit range in four low/high mixes) + S-full variants. '
          'static: every gr_face_*/gr_fref_* feature, language and label query vs independent Feat/Sill/name readers (labels in 3 encodings x 6 requested languages, zero-/space-padded tags). '
          'BFS: explicit-state search over histories of set(f,v) (f in a boundary feature subset, v in {0,1,mid,max,max+1,0xFFFF}) and clone, from start states {clone(NULL), defaults, each language}; after EVERY operation ALL features are read and compared with a plain-array model; '
          'state = value vector (deduplicated), depth chosen so that ops^depth <= 30k (quick) / 400k (thorough), each expansion replays the history on a fresh gr_feature_val',
@@ -107,7 +107,7 @@ for _p, _what in (('C02', 'oracle: ASan/UBSan silence, rule-loop counter hook <=
         steps=[dict(name='program_enumeration', py=stream_families(['growth', 'twopass', 'manyrules', 'deep', 'constraint', 'action'], _p), targets=[('asan', 'c02_stream')]),
                dict(name='accepted_load_mutants', py=cached_binary('c01_load', _p, 'C01'), targets=[('asan', 'c01_load')]),
                dict(name='shipped_corpora', py=cached_binary('c03_corpus', _p, 'C02'), targets=[('asan', 'c03_corpus')])],
-        rule=_PROG_RULE + 'Additionally every C01 load mutant (single byte / field / field pair / truncation deviations of the seed fonts) that the loader accepts is shaped with 4 texts x dir {0,1,3}; and every shipped font x corpus lines/words + every substring of 1..4 characters of the first lines (texts that start inside a cluster or with a mark) and every synthesised seed font (all S-full / S-min / Feat variants: compressed, RTL, line-end flag, pass bits, bidi step with mirroring, dense attributes, cmap edges ...) x all strings of length 0..3 over 11 characters (letters, space, marks, pseudo-glyph character, supplementary character), x dir 0..7 x {font NULL, ppm 16}. ' + _what + '. distinct = distinct structural segment dumps (slots, glyphs, attachments, associations) observed',
+        rule=_PROG_RULE + 'Additionally every C01 load mutant (single byte / field / field pair / truncation deviations of the seed fonts) that the loader accepts is shaped with 4 texts x dir {0,1,3}; and every shipped font x corpus lines/words (quick: first 1500, the collision fonts all) + every substring of 1..4 characters of the first lines (texts that start inside a cluster or with a mark) and every synthesised seed font (all S-full / S-min / Feat variants: compressed, RTL, line-end flag, pass bits, bidi step with mirroring, dense attributes, cmap edges ...) x all strings of length 0..3 over 11 characters (letters, space, marks, pseudo-glyph character, supplementary character), x dir 0..7 x {font NULL, ppm 16}; (encodings) UTF-16 and UTF-32 input: every unit sequence of length 1..4 over alphabets with paired, unpaired and reversed surrogates / out-of-range values on two fonts, char-infos compared with the reference decoding. ' + _what + '. distinct = distinct structural segment dumps (slots, glyphs, attachments, associations) observed',
         level_text='Bounded exhaustive enumeration of rule programs (the font is the program) crossed with all short texts and direction flags, each executed on the real engine under sanitizers with the structural oracle evaluated on every resulting segment.',
         level_note='Trusted: ASan/UBSan, the structural oracle (src/common/segcheck.hpp), the reference UTF decoder. Program length, alphabet and text length are bounded; collision passes are not part of the program space. The four properties C02-C05 share one cached run per tree.',
         technique='exhaustive bounded program enumeration (fonts as programs) x all short inputs on the real code, invariant oracle on every final state',
@@ -131,7 +131,7 @@ CHECKS['C15'] = dict(
     level='exploration',
     steps=[dict(mode='asan', bin='c15_scale')],
     rule='(every shipped font x first 60 (quick) / all (thorough) corpus lines and words) + (S-full, S-full RTL, S-full v3, S-min x ALL strings of length 0..3 (thorough 0..4) over {a,b,c,d,e,space,acute,grave}) x dir {0,1,3} x ppm {0.5,1,7.3,12,48.5,upem,4096}: '
-         'structural dump identical to the font=NULL run; origin x/y, gr_slot_advance_X/Y, segment advance within 1e-4 relative of design value x ppm/upem. '
+         'structural dump identical to the font=NULL run; origin x/y, gr_slot_advance_X (with the face and with face NULL) / _Y, segment advance within 1e-4 relative of design value x ppm/upem. '
          '(justified_lines) Padauk, Charis, Scheherazade, general.ttf x 25 (thorough 200) corpus items and S-full / S-full RTL x all strings of length 4 (thorough 5) over {a,b,space,acute,d} containing a space, paragraph direction = font direction: whole segment and BOTH lines after a break before each of the first 4 cluster starts x ppm {9,12,96,4096} x width factor {1.3,0.9}: gr_seg_justify(W x ppm/upem, font) must return and position every slot of the line as gr_seg_justify(W, NULL) scaled by ppm/upem, within one design unit per slot (the justifier hands out whole design units). distinct = distinct structural dumps',
     level_text='Bounded exhaustive product of fonts x texts x directions x ppm values on the real code with a differential oracle (design-unit run) and a linear-scaling oracle.',
     level_note='Trusted: the oracle tolerance 1e-4 (measured worst case < 1e-6). ppm values are a 7-point set, not all of (0,4096].',
@@ -191,7 +191,7 @@ CHECKS['C14'] = dict(
          'x announced size {exact,-1,+1,+8}, and all 3-sequence blocks over reduced sets; (b) every truncation of valid seed blocks; (c) every single-byte deviation (all 255 values; thorough: x all token bytes) of valid seed blocks <=48 bytes; (d) ALL byte strings of length 13 (thorough 14) over {00,10,1F,F0}. '
          'Oracle: no fault, return in {-1} u [0,size]; size returned == announced size only if the reference decodes to exactly those bytes; valid shrinking encodings obeying the end-of-block rules must be accepted. '
          '(table_wrapper) the [version][scheme:5|announced size:27] header of the compressed Silf and Glat tables of the three compressed S-full variants (thorough + Awami compressed): ALL 32 scheme values x 32 boundary sizes (0..5, 7..9, 12, 13, 16, compressed length +-1/-8/-9, true size +-1/+-4, half, double, powers of two, 27-bit maximum), loaded with options 0 and 7 under ASan: no fault, unmodified header loads and reports the uncompressed face, borrowed tables returned. '
-         'Transparency: S-full with Silf / Glat / both compressed under EVERY encoding that differs from the greedy parse in 1 decision (thorough: 2 nearby decisions) out of {literal instead of match, shortest match, farthest offset, 19-byte match (length-extension byte)}: must load (options 0 and 7) and give the same face dump and the same segments for all strings <=2 (thorough <=3) over 9 characters x dir 0/1 as the uncompressed font; '
+         'Transparency: S-full with Silf / Glat / both compressed under EVERY encoding that differs from the greedy parse in 1 decision (thorough: 2 nearby decisions) out of {literal instead of match, shortest match, farthest offset, 19-byte match (length-extension byte)}: plus, for each table, the valid blocks that are exactly 1..12 bytes shorter than the data (last matches shortened or dropped): must load (options 0 and 7) and give the same face dump and the same segments for all strings <=2 (thorough <=3) over 9 characters x dir 0/1 as the uncompressed font; '
          'shipped pair Awami_test / Awami_compressed_test on the awami corpus x dir {1,3} x options {0,7}',
     state_meaning='one compressed block (or one compressed font); transitions = decoder runs compared with the reference decoder / shapings compared with the uncompressed font',
     level_text='Exhaustive enumeration of structured LZ4 blocks, truncations and byte deviations against a reference decoder on guard-paged buffers; enumeration of valid encodings of real tables for the transparency clause.',
@@ -218,7 +218,7 @@ CHECKS['C01'] = dict(
 CHECKS['C09'] = dict(
     level='model_checking',
     steps=[dict(mode='trk', bin='c09_threads'), dict(mode='tsan', bin='c09_threads')],
-    rule='harness: N in {2,3} threads, each gr_face_featureval_for_lang + gr_make_seg on its own text (texts with overlapping glyph sets) + full dump + feature label + is_char_supported + destroy, on ONE cold shared face (gr_face_preloadAll) and ONE shared gr_make_font font; '
+    rule='harness: N in {2,3} threads, each gr_face_featureval_for_lang + gr_make_seg on its own text (texts with overlapping glyph sets) + full dump + feature label + value label + find_fref + face info + is_char_supported + a font of its own on the shared face with a second segment that is justified + destroy, on ONE cold shared face (gr_face_preloadAll) and ONE shared gr_make_font font; '
          'fonts S-full, small.ttf, Padauk, S-full with one unreadable glyph (preloadAll must refuse it, the configuration is then vacuous) (thorough + Scheherazade, Awami_test, charis) x dir {0,1}. The library is compiled with -fsanitize=thread instrumentation and linked against our own __tsan_* runtime (src/sched/trk_runtime.cpp): every instrumented access is classified private (own stack / own allocation arena) or shared; '
          'two accesses are dependent iff same 8-byte granule, different threads, at least one write. Run 0 records the access sets; if the dependence relation is empty all interleavings are Mazurkiewicz-equivalent to the executed one (1 schedule class, reported with the event counts); otherwise (and always for the POSITIVE CONTROL configurations: lazily loading face, advance-callback font, and - the one that MUST show a conflict, independent of library internals - every thread letting the library write a tag into one caller-supplied buffer) '
          'every schedule with <= 2 preemptions at the dependent accesses is executed under a serialising scheduler from an identical cold state and each thread\'s result is compared with the single-threaded reference. Oracles: empty dependence relation (= no data race, the library has no synchronisation), no table callback during the parallel phase, per-thread result == sequential result. '
@@ -252,7 +252,7 @@ CHECKS['C06'] = dict(
     steps=[dict(name='gdl_lite', py=stream_simple('gdl_lite', 'gdl_lite.py', 'c06_stream'), targets=[('asan', 'c06_stream')])],
     rule='GDL-lite programs (gen/gdl_lite.py) compiled to Silf/Glat/Gloc/cmap tables by the synthesiser: (single) every rule with pre-context 0..2 (uniform class), body length 1..3 (total <= 4 quick / 5 thorough) over 3 (thorough 5) overlapping input classes, '
          'at most two body items carrying one action from {put_glyph x|z, delete, insert z, user0=3, advance=777, put_subs([a b]->[x y])}, optional constraint (glyph attribute == v, feature == 1; thorough: on every item); (pair) ordered pairs from a 64-rule core that overlaps on many strings '
-         '(precedence by sort key, by rule order, by constraint; mixed pre-context lengths in one pass); (twopass) substitution pass then positioning pass (shift, advance, user attribute, attachment of an inserted zero-advance mark); (attr_then_pair) a pass setting a user attribute / advance followed by a pass with two core rules (inserted slots must be fresh); (backup_chain) MaxRuleLoop M in 2..5 with k <= M-1 single-slot rules that substitute and resume at their own slot (no progress, the loop limit must not intervene), then a rule spanning 2-3 slots (resuming after it or inside it), then a rule that could match inside that output; (direction) RTL fonts and reverse-direction passes. '
+         '(precedence by sort key, by rule order, by constraint; mixed pre-context lengths in one pass); (twopass) substitution pass then positioning pass (shift, advance, user attribute, attachment of an inserted zero-advance mark); (attr_then_pair) a pass setting a user attribute / advance followed by a pass with two core rules (inserted slots must be fresh); (backup_chain) MaxRuleLoop M in 2..5 with k <= M-1 single-slot rules that substitute and resume at their own slot (no progress, the loop limit must not intervene), then a rule spanning 2-3 slots (resuming after it or inside it), then a rule that could match inside that output; (class_lookup) PUT_SUBS through lookup classes of every size 1..8 in two member orders, with and without pre-context, every member substituted alone and in a run; (direction) RTL fonts and reverse-direction passes. '
          'Every program x every string of length 1..3 (thorough 1..4) over {a,b,c,d} + strings with an unmapped character x dir {0,1} (x feature 0/1 when tested): the reference interpreter (written from doc/GTF.adoc and doc/OpCodes.adoc: longest sort key first then earliest rule, constraint true, in-place stream, cursor after the rule, advance reset on glyph change, '
          'pen accumulation with shift and attachment offsets) must equal the engine on glyph ids, parent indices, advance/shift/user/attach attributes and, for LTR unreversed programs, design-unit origins and the segment advance',
     state_meaning='states = (program, string, direction, feature) evaluations; every one is a reference trace validated against the implementation',
